@@ -70,6 +70,10 @@ def validate(v, name, cases, semsize=9, semmvs=2, carrier=2, bs=200, clauses=('u
         raise MachineryError(f'{name}: TLC examined {done} of {len(cases)} recorded cases')
     v.add_tlc(res)
     v.cov['traces_validated_against_impl'] += len(cases)
+    ops = v.cov.setdefault('steps_by_opcode_accepted_rejected', {})
+    for c in cases:
+        o = ops.setdefault(c['ins']['op'], [0, 0])
+        o[0 if c['out'] == 'ok' else 1] += 1
     out = []
     for f in res.fails:
         out.append((f[2], cases[f[1] - 1]))
@@ -108,10 +112,10 @@ def impl_bfs(alphabet, depth, gamma_terms, maxstack=4, maxsize=9, maxstates=4000
     return cases
 
 
-def indstep(v, quick):
+def indstep(v, quick, tag='c01', clauses=('unsound',), semsize=24):
     """(A1) inductive step on the specification + the same rule instances executed by Rust."""
     import funcs
-    res, n = funcs.run_blocks(v, 'C01', 'MC_IndStep', 'c01-indstep', None, ' Quick = ' + ('TRUE' if quick else 'FALSE'), bs=4, needs_sem=True)
+    res, n = funcs.run_blocks(v, tag.upper(), 'MC_IndStep', tag + '-indstep', None, ' Quick = ' + ('TRUE' if quick else 'FALSE'), bs=4, needs_sem=True)
     if res.fails:
         raise MachineryError(f'the SPECIFICATION machine is unsound in the inductive step: {res.fails[:3]}')
     valid, alpha, plugs, plugs2 = [], None, None, None
@@ -144,7 +148,10 @@ def indstep(v, quick):
             pairs.append((st([{'k': 'prf', 'p': x}, {'k': 'prf', 'p': x['l']}]), machine.ins('ModusPonens')))
     cases = machine.replay_steps(pairs)
     v.sample({'pre_stack': cases[5]['stack'], 'ins': cases[5]['ins'], 'out': cases[5]['out']})
-    report(v, validate(v, 'c01-indstep-trace', cases, semsize=24, semmvs=3, bs=400), 'inductive step from a valid premise')
+    fails = validate(v, tag + '-indstep-trace', cases, semsize=semsize, semmvs=3, bs=400)
+    if tag == 'c01':
+        report(v, fails, 'inductive step from a valid premise')
+    return fails
 
 
 def report(v, fails, source):
